@@ -26,6 +26,7 @@ EXPLANATION = (
     "annotations) and the scratch-register choice is control-dependent on exclusion from both the program's registers and the "
     "temporaries of the same command; the final pass maps each command to exactly one instruction through the flavour's mnemonic table."
     ' Operand-producing functions must return fresh objects (no memoisation, no module-level table), because _replace_constants rewrites operands in place. C03.Z: no truthiness test on an int-typed value in the assembler (a label at instruction 0 is a value).'
+    ' get_current_registers is executed abstractly (checker-side AST interpreter) with one register at the top level and in each register-bearing attribute of each operand class.'
 )
 LEVEL_TEXT = (
     "Static analysis, partial: decides the structural clauses the assembler's correctness rests on for every instruction class and "
